@@ -2,9 +2,9 @@
    The C05_src_* theorems at the end are re-proved on every run against genprops/GammaGen.v, the translation of GammaResults.gamma /
    expected_disorder and of the sample-count rule of compute_gamma from the CURRENT continuum.py (harness/gen_gamma.py). *)
 From Coq Require Import String List Arith ZArith QArith Qround Bool Lia.
-From PGA Require Import Gamma.GammaK Gamma.GammaKProofs Gamma.GammaRun Gamma.GammaRunProofs Gamma.GammaCompose Align.Tuples Align.Cover Align.Inst.
+From PGA Require Import Gamma.GammaK Gamma.GammaKProofs Gamma.GammaRun Gamma.GammaRunProofs Gamma.GammaCompose Gamma.SameMode Fast.Window Align.Tuples Align.Cover Align.Inst.
 From PGAgen Require Import ConstGen.
-From PGAprops Require Import GammaGen PoolGen.
+From PGAprops Require Import GammaGen PoolGen ShapesGen.
 Import ListNotations.
 
 (* the result holds exactly max(n_samples, N_required) chance alignments; none beyond n_samples when no precision level is given *)
@@ -128,3 +128,29 @@ Theorem C05_src_pool_section :
    "for (i, result) in enumerate(result_pool): [chance_best_alignments.append(result.result()); chance_disorders.append(chance_best_alignments[-1].disorder)]"%string;
    "if precision_level is not None: [if isinstance(precision_level, str): [precision_level = PRECISION_LEVEL[precision_level]]; assert 0 < precision_level < 1.0; variation_coeff = np.std(chance_disorders) / np.mean(chance_disorders); confidence = 1.96; required_samples = np.ceil((variation_coeff * confidence / precision_level) ** 2).astype(np.int32); if required_samples > n_samples: [result_pool = [p.submit(job, *(dissimilarity, sampler.sample_from_continuum)) for _ in range(required_samples - n_samples)]; for (i, result) in enumerate(result_pool): [chance_best_alignments.append(result.result())]]]"%string].
 Proof. reflexivity. Qed.
+
+(* ---------------------------------------------------------------------------------------------------------------------------------
+   "each the same kind of alignment" in FAST mode.  The fast job takes its route from the window size carried by the continuum it is handed.
+   With the sampler keeping the input itself as reference (init_sampling), the size measured before the pool (before_pool_src) and copy_flush
+   copying the size into each sample, every sample carries the measured size: every chance job takes the route of the observed one.  A sampler
+   that snapshots its reference at init time breaks this (sensitivity).  Proofs in theories/Gamma/SameMode.v. *)
+Theorem C05_samples_carry_measured_window w n w0 r0 : prog (fast_gamma_program w n) w0 r0 = (repeat w n, w).
+Proof. exact (samples_carry_measured_window w n w0 r0). Qed.
+Theorem C05_chance_route_is_observed_route w n w0 r0 s :
+  In s (fst (prog (fast_gamma_program w n) w0 r0)) -> fast_job_route s = fast_job_route (snd (prog (fast_gamma_program w n) w0 r0)).
+Proof. exact (chance_route_is_observed_route w n w0 r0 s). Qed.
+Theorem C05_snapshot_before_measure_would_differ :
+  exists w n s, In s (fst (prog (InitSnapshot :: Measure w :: repeat Sample n) None Alias)) /\
+                fast_job_route s <> fast_job_route (snd (prog (InitSnapshot :: Measure w :: repeat Sample n) None Alias)).
+Proof. exact snapshot_before_measure_differs. Qed.
+
+Fixpoint lookup_src (k : string) (l : list (string * string)) : option string :=
+  match l with [] => None | (a, b) :: r => if String.eqb k a then Some b else lookup_src k r end.
+(* the three facts the program above assumes, as the CURRENT source states them: the sampler keeps the continuum it is given (no copy);
+   init_sampling comes before the measurement, both before the pool; copy_flush hands the size on *)
+Theorem C05_src_samples_inherit_the_window :
+  lookup_src "init_sampling" abstractcontinuumsampler_src = Some "(self, reference_continuum, ground_truth_annotators=None) assert reference_continuum, 'Cannot initialize sampling with an empty reference continuum.'; self._reference_continuum = reference_continuum; if ground_truth_annotators is None: [self._ground_truth_annotators = self._reference_continuum.annotators] else: [assert self._reference_continuum.annotators.issuperset(ground_truth_annotators), ""Can't sample from ground truth annotators not in the reference continuum.""; self._ground_truth_annotators = SortedSet(ground_truth_annotators)]"%string /\
+  lookup_src "copy_flush" continuum_src = Some "(self) continuum = Continuum(self.uri); continuum.bound_inf, continuum.bound_sup = (self.bound_inf, self.bound_sup); continuum.best_window_size = self.best_window_size; return continuum"%string /\
+  nth 3 before_pool_src ""%string = "sampler.init_sampling(self, ground_truth_annotators)"%string /\
+  nth 7 before_pool_src ""%string = "if fast: [job = _compute_fast_alignment_job; self.measure_best_window_size(dissimilarity)]"%string.
+Proof. repeat split. Qed.
